@@ -1238,7 +1238,13 @@ func c32RunPinned(t *testing.T, srv *vsql.Server, admin *vsql.Session, pc c32Pin
 	return ""
 }
 
-const c32Rule = "rapid-generated histories of 2..4 commits (+ the empty initial commit) of row edits over INT,BIGINT,VARCHAR,VARBINARY,DECIMAL,DATE,DATETIME(6),JSON,TEXT values (NULLs, quotes, backslashes, NUL bytes, newlines, binary) and schema changes (ADD/DROP/RENAME/MODIFY COLUMN, CREATE/DROP INDEX, CREATE/DROP/RENAME TABLE, tables re-created under an old name; tables have 1..3 key columns of INT/VARCHAR whose PRIMARY KEY clause lists them in a drawn order that in about a third of the cases differs from the declaration order, key values of different key columns never coincide); for every ordered pair of commits dolt_diff(from,to,t) is compared row by row with the diff of the recorded models (every reported row: right key, diff_type, from_/to_ values, once; every added/removed row and every row with a changed common column or a non-NULL value in an added column reported), dolt_diff_stat and dolt_diff_summary with the model's counts and changed-table set, dolt_diff_<t> for parent/child pairs, and the statements of dolt_patch(from,to) are executed in order on a scratch branch created at `from`, after which table set, rows and SHOW CREATE TABLE must equal `to`. Non-trivial: the pair set of the case contains added, removed and modified rows, a pair with a schema change, and a value that needs escaping; distinct by operation sequence."
+// c32ColPool: hostile but legal column names — names that start with the diff tables' own
+// from_/to_ prefixes (also doubled), names that collide once a prefix is stripped (c0 with
+// from_c0 / to_c0), a reserved word in mixed case, a name of a diff-table column, a space and a
+// non-ASCII letter in quoted identifiers (no two names equal ignoring case).
+var c32ColPool = []string{"c0", "from_c0", "to_c0", "from_from_x", "to_to", "Select", "a b", "diff_type", "naïve"}
+
+const c32Rule = "rapid-generated histories of 2..4 commits (+ the empty initial commit) of row edits over INT,BIGINT,VARCHAR,VARBINARY,DECIMAL,DATE,DATETIME(6),JSON,TEXT values (NULLs, quotes, backslashes, NUL bytes, newlines, binary) and schema changes over pools of hostile-but-legal names (tables t0, from_t1, `To t2`; columns c0, from_c0, to_c0, from_from_x, to_to, Select, `a b`, diff_type, naïve) (ADD/DROP/RENAME/MODIFY COLUMN, CREATE/DROP INDEX, CREATE/DROP/RENAME TABLE, tables re-created under an old name; tables have 1..3 key columns of INT/VARCHAR whose PRIMARY KEY clause lists them in a drawn order that in about a third of the cases differs from the declaration order, key values of different key columns never coincide); for every ordered pair of commits dolt_diff(from,to,t) is compared row by row with the diff of the recorded models (every reported row: right key, diff_type, from_/to_ values, once; every added/removed row and every row with a changed common column or a non-NULL value in an added column reported), dolt_diff_stat and dolt_diff_summary with the model's counts and changed-table set, dolt_diff_<t> for parent/child pairs, and the statements of dolt_patch(from,to) are executed in order on a scratch branch created at `from`, after which table set, rows and SHOW CREATE TABLE must equal `to`. Non-trivial: the pair set of the case contains added, removed and modified rows, a pair with a schema change, and a value that needs escaping; distinct by operation sequence."
 
 func c32Run(t *testing.T, rec *vh.Recorder, part string, quick, thorough int, cfg hConfig, opts c32Opts) {
 	dir, cleanup := vh.ScratchDir(t, "c32")
@@ -1333,6 +1339,6 @@ func TestVerif_C32(t *testing.T) {
 		"while a finding C32-* is listed open in known_findings.json exactly its pair shape is left out of the patch round trip (classes pairs_excluded:<id>, excluded_known); its pinned sub-test reports KNOWN-FINDING while it reproduces",
 	)
 	defer rec.Write(t)
-	c32Run(t, rec, "pairs", 130, 220, hConfig{Types: hAllTypes, TablePool: []string{"t0", "t1", "t2"}, ColPool: []string{"c0", "c1", "c2", "c3", "c4"},
+	c32Run(t, rec, "pairs", 130, 220, hConfig{Types: hAllTypes, TablePool: []string{"t0", "from_t1", "To t2"}, ColPool: c32ColPool,
 		MinCommits: 3, MaxCommits: 4, MaxEdits: 9, RowBoost: true, DDLBoost: 2, Indexes: true, StrPK: true, PKByName: true}, c32Opts{patch: true})
 }
